@@ -203,6 +203,8 @@ def check_framing(rep, fm, cli):
             raise AnalysisError("directory mode %s is not reached from main()" % fn)
         for c0 in calls:
             end = min([x.seq for x in exits if x.seq > c0.seq] or [len(ev)])
+            # (this activation ends where the next call of the same mode function begins, if main() goes on after it)
+            end = min([end] + [c.seq for c in calls if c.seq > c0.seq])
             loops = [L for L in dls if q in L.stack and c0.seq < L.events[0] < end]
             if not loops:
                 rep.fail(rule, q, fn, "no loop over the directory entries found in %s" % fn)
@@ -215,6 +217,10 @@ def check_framing(rep, fm, cli):
             ok = False
             for P in finals:
                 extra = [c for c in conj(fm.norm(P.guard)) if c not in entry]
+                if extra and not all(is_hex_test(c) for c in extra):
+                    # (the same condition may be written differently where the mode is entered and after its loop)
+                    ent_ = and_(*entry)
+                    extra = [c for c in extra if is_hex_test(c) or not implies(ent_, c)[0]]
                 if all(is_hex_test(c) for c in extra):      # only the --hex switch may suppress it
                     ok = True
             rep.check(ok, rule, "%s: the closing output is printed after the loop on every path (only --hex may suppress it)" % fn, q, fn,
